@@ -30,7 +30,7 @@ func findJoe(P *Program) *joeParts {
 		if !inSSEPackage(fn) {
 			continue
 		}
-		eachInstr(fn, func(in ssa.Instruction) {
+		eachInstrDeep(fn, func(in ssa.Instruction) {
 			if g, ok := in.(*ssa.Go); ok {
 				gos = append(gos, g)
 			}
@@ -51,7 +51,7 @@ func findJoe(P *Program) *joeParts {
 		jp.problems = append(jp.problems, "no go statement starting a *Joe method found")
 		return jp
 	}
-	eachInstr(jp.loop, func(in ssa.Instruction) {
+	eachInstrDeep(jp.loop, func(in ssa.Instruction) {
 		sel, ok := in.(*ssa.Select)
 		if !ok || !sel.Blocking {
 			return
@@ -216,7 +216,7 @@ func rangeValueOverJoeMap(v ssa.Value, field string) (*ssa.Next, bool) {
 func subscriberClosers(P *Program) map[*ssa.Function]int {
 	out := map[*ssa.Function]int{}
 	for _, fn := range P.Funcs {
-		eachInstr(fn, func(in ssa.Instruction) {
+		eachInstrDeep(fn, func(in ssa.Instruction) {
 			c, ok := isBuiltin(in, "close")
 			if !ok {
 				return
